@@ -1,2 +1,141 @@
-/-! line-protocol driver for property C13 (stub) -/
-def main (_args : List String) : IO Unit := pure ()
+import MirVerif.Model.LinkSpec
+/-! line-protocol driver for property C13: same input language as `harness/c13_link.c`
+(see the comment at the top of that file); prints what the model predicts for every operation. -/
+open MirVerif.Link
+
+namespace C13Drv
+
+def nameOf (s : String) : Name := (s.toList.getD 1 'a').toNat - 97
+def nameStr (n : Name) : String := String.singleton (Char.ofNat (n + 97))
+
+def parseDecl (s : String) : Option Decl :=
+  let n := nameOf s
+  match s.toList.head? with
+  | some 'E' => some (.exp n)
+  | some 'F' => some (.fwd n)
+  | some 'D' => some (.func n)
+  | some 'V' => some (.data n)
+  | some 'C' => some (.imp n .call)
+  | some 'P' => some (.imp n .ptr)
+  | some 'R' => some (.imp n .ref)
+  | _ => none
+
+def errName : Err → String
+  | .importExport => "MIR_import_export_error"
+  | .repeatedDecl => "MIR_repeated_decl_error"
+  | .undeclaredOpRef => "MIR_undeclared_op_ref_error"
+  | .undefinedInterface => "undefined_interface"
+
+def allMods (s : State) : List Mod := (s.queue ++ s.done).mergeSort (fun a b => a.id ≤ b.id)
+
+def dumpBinds (s : State) : String :=
+  String.join ((allMods s).map fun m =>
+    s!" m{m.id}:{if m.iface.isSome then "d" else "q"}:" ++
+      ",".intercalate (m.imps.map fun p =>
+        nameStr p.1 ++ "=" ++ (match m.binds.lookup p.1 with | some d => toString d.value | none => "?")))
+
+def dumpCalls (s : State) : String :=
+  String.join (((allMods s).filter (·.iface.isSome)).map fun m =>
+    s!" m{m.id}:" ++ ",".intercalate ((observeMod s m).map fun p =>
+        nameStr p.1 ++ "=" ++ (match p.2 with | some v => toString v | none => "?")))
+
+def parseOp (toks : List String) : Option Op :=
+  match toks with
+  | "load" :: id :: ds => (ds.mapM parseDecl).map (Op.loadModule id.toNat!)
+  | ["ext", n, k] => some (.loadExternal ((n.toList.headD 'a').toNat - 97) (100 + k.toNat! % 10))
+  | ["redef", b] => some (.setRedef (b != "0"))
+  | ["link", i, names] =>
+    let ifc : Option Iface := match i with
+      | "interp" => some .interp | "gen" => some .gen | "lazy" => some .lazy | _ => none
+    let ns : List Name := if names == "-" then [] else names.toList.map (·.toNat - 97)
+    some (.link ifc (fun n => if ns.contains n then some (200 + n) else none))
+  | ["call"] => some .call
+  | _ => none
+
+def render (op : Op) (s : State) : String :=
+  match s.err with
+  | some e => "err " ++ errName e
+  | none => match op with
+    | .link _ _ => "ok" ++ dumpBinds s
+    | .call => "ok" ++ dumpCalls s
+    | _ => "ok"
+
+partial def loop (h : IO.FS.Stream) (st : State) : IO Unit := do
+  let line ← h.getLine
+  if line.isEmpty then return ()
+  let toks := (line.trimAscii.toString.splitOn " ").filter (· != "")
+  match toks with
+  | [] => loop h st
+  | ["reset"] => IO.println "reset"; loop h init
+  | _ =>
+    if st.err.isSome then loop h st
+    else match parseOp toks with
+      | none => IO.println s!"bad op {line.trimAscii.toString}"; loop h st
+      | some op =>
+        let st' := step st op
+        IO.println (render op st')
+        loop h st'
+
+/-! ### `spec` mode: what the property statement (through `lastDef`) demands, per operation.
+`any` = the statement does not say (malformed module text; a function replacing a non-function). -/
+
+structure SpecSt where
+  r : List Op := []                                   -- history so far, most recent call first
+  mods : List (Nat × List Name) := []                 -- every module loaded so far
+  frozen : List (Nat × List (Name × Nat)) := []       -- values fixed when the interface was installed
+  stop : Bool := false
+
+def fmtVals (vs : List (Name × Nat)) : String :=
+  ",".intercalate (vs.map fun p => nameStr p.1 ++ "=" ++ toString p.2)
+
+def specStep (st : SpecSt) (op : Op) : SpecSt × String :=
+  let r := st.r
+  match op with
+  | .loadModule id ds =>
+    if !declsOk ds then ({ st with stop := true }, "any")
+    else
+      let names := (ds.map Decl.name).eraseDups
+      let funcs := names.filter fun n => declExport id ds n == some (.func id)
+      let clashF := funcs.any fun n => match lastDefR r n with | some (.func _) => true | _ => false
+      let clashO := funcs.any fun n => (lastDefR r n).isSome
+      if clashF && !redefOkR r then ({ st with stop := true }, "err MIR_repeated_decl_error")
+      else if clashO && !redefOkR r then ({ st with stop := true }, "any")
+      else ({ st with r := op :: r, mods := st.mods ++ [(id, (declImports ds).eraseDups)] }, "ok")
+  | .loadExternal _ _ | .setRedef _ => ({ st with r := op :: r }, "ok")
+  | .link ifc res =>
+    let pend := (pendingModsR r).map (·.1)
+    let bad := (pendingR r).any fun n => (wanted r res n).isNone
+    if bad then ({ st with stop := true }, "err MIR_undeclared_op_ref_error")
+    else
+      let vals := fun (imps : List Name) => imps.map fun n => (n, ((wanted r res n).map Def.value).getD 0)
+      let line := String.join (st.mods.map fun m =>
+        if pend.contains m.1 then s!" m{m.1}:{if ifc.isSome then "d" else "q"}:" ++ fmtVals (vals m.2)
+        else s!" m{m.1}:d:" ++ fmtVals ((st.frozen.lookup m.1).getD []))
+      let frozen' := if ifc.isSome then
+          st.frozen ++ (st.mods.filter (pend.contains ·.1)).map (fun m => (m.1, vals m.2))
+        else st.frozen
+      ({ st with r := op :: r, frozen := frozen' }, "ok" ++ line)
+  | .call =>
+    ({ st with r := op :: r }, "ok" ++ String.join (st.frozen.map fun m => s!" m{m.1}:" ++ fmtVals m.2))
+
+partial def specLoop (h : IO.FS.Stream) (st : SpecSt) : IO Unit := do
+  let line ← h.getLine
+  if line.isEmpty then return ()
+  let toks := (line.trimAscii.toString.splitOn " ").filter (· != "")
+  match toks with
+  | [] => specLoop h st
+  | ["reset"] => IO.println "reset"; specLoop h {}
+  | _ =>
+    if st.stop then specLoop h st
+    else match parseOp toks with
+      | none => IO.println s!"bad op {line.trimAscii.toString}"; specLoop h st
+      | some op =>
+        let (st', out) := specStep st op
+        IO.println out
+        specLoop h st'
+
+end C13Drv
+
+def main (args : List String) : IO Unit := do
+  if args == ["spec"] then C13Drv.specLoop (← IO.getStdin) {}
+  else C13Drv.loop (← IO.getStdin) init
